@@ -95,6 +95,7 @@ def default_spec(**kw: Any) -> dict[str, Any]:
         "address": None,             # override the single address (e.g. an FQDN that goes through simulated DNS)
         "dns": {},                   # host -> [ips] | "hang" | "gaierror" | ["delay", dt, [ips]]
         "tcp": {},                   # ip -> [kind, delay] with kind in refuse|unreach|timeout|hang
+        "sockopt_fail": None,        # nodelay | rcvbuf | quickack : setsockopt raising for that option
         "horizon": 400.0,
     }
     spec.update(kw)
@@ -183,6 +184,16 @@ class Runner:
                     return tuple(tcp[addr[0]])
                 return prev(sock, addr)
             sim.net.connect_policy = tcp_policy
+        sf = spec.get("sockopt_fail")
+        if sf:
+            def sockopt_fault(level: int, opt: int, value: Any) -> None:
+                if sf == "nodelay" and level == _s.IPPROTO_TCP and opt == _s.TCP_NODELAY:
+                    raise OSError(22, "Invalid argument")
+                if sf == "rcvbuf" and level == _s.SOL_SOCKET and opt == _s.SO_RCVBUF:
+                    raise OSError(105, "No buffer space available")
+                if sf == "quickack" and level == _s.IPPROTO_TCP and opt == getattr(_s, "TCP_QUICKACK", -1):
+                    raise AttributeError("TCP_QUICKACK")
+            sim.net.sockopt_fault = sockopt_fault
         kw: dict[str, Any] = {"keepalive": spec["keepalive"]}
         if spec["framing"] == "noise":
             kw["noise_psk"] = PSK_B64
